@@ -623,8 +623,9 @@ def lookupLines (impl : List String) : List String :=
 
 def judge (cmds impl : List String) : List String :=
   let mem := memLines impl
+  -- (`tbl ..`: the bucket layout of an integer-key mapping, compared with the model by the correspondence, not judged)
   let impl' := impl.filter (fun l => !(l.startsWith "sanitizer" ∨ l.startsWith "crash" ∨ l.startsWith "tree " ∨
-    l.startsWith "lookup-miss"))
+    l.startsWith "lookup-miss" ∨ l.startsWith "tbl "))
   let (s, _) := cmds.foldl (fun (acc : JState × List String) c => judgeCmd acc.1 c acc.2) ({}, impl')
   mem ++ lookupLines impl ++ s.bad.reverse
 
